@@ -9,14 +9,267 @@ use proptest::prelude::*;
 
 pub struct C05;
 
+#[derive(Clone, Debug, serde::Serialize, serde::Deserialize)]
+#[serde(untagged)]
+pub enum Case {
+    Pair(PairScenario),
+    Endpoints { endpoints: EpIdeal },
+}
+
+/// A real Server and a real Client on an ideal network: phases of streaming in one or both directions that last
+/// longer than the active timeouts, keepalive on or off per side. At least one application submits a packet at least
+/// every third of the shorter active timeout (the documented condition for running without keepalive), so the
+/// connection must stay up and every packet must arrive.
+#[derive(Clone, Debug, serde::Serialize, serde::Deserialize)]
+pub struct EpIdeal {
+    pub seed: u64,
+    /// (keepalive, keepalive_interval_ms, active_timeout_ms) of the server and of the client
+    pub server: (bool, u32, u32),
+    pub client: (bool, u32, u32),
+    pub latency_us: [u32; 2],
+    pub step_us: u32,
+    pub phases: Vec<Phase>,
+}
+
+#[derive(Clone, Debug, serde::Serialize, serde::Deserialize)]
+pub struct Phase {
+    pub dur_ms: u32,
+    /// the application that keeps talking in this phase (true = the client) and its interval as a fraction
+    /// (1..=255)/255 of the permitted maximum
+    pub lead_client: bool,
+    pub lead_every: u8,
+    /// the other application: submits every `other_every_ms` if Some
+    pub other_every_ms: Option<u32>,
+    pub ch: u8,
+    pub mode: u8,
+    pub size: u32,
+}
+
+fn ep_ideal_strategy(tier: Tier) -> BoxedStrategy<EpIdeal> {
+    let side = || (prop_oneof![Just(true), Just(false)], prop_oneof![Just(1000u32), Just(5000u32), Just(30_000u32)], prop_oneof![2 => Just(10_000u32), 4 => Just(20_000u32), 1 => Just(60_000u32)]);
+    let phase = (
+        prop_oneof![3 => 500u32..5_000, 3 => 5_000u32..30_000, 1 => 30_000u32..70_000],
+        any::<bool>(),
+        prop_oneof![1 => Just(255u8), 2 => 1u8..=255, 1 => 1u8..20],
+        proptest::option::weighted(0.3, prop_oneof![20u32..500, 500u32..10_000]),
+        prop_oneof![3 => 0u8..3, 1 => 0u8..64],
+        prop_oneof![1 => Just(0u8), 2 => Just(1u8), 2 => Just(2u8), 3 => Just(3u8)],
+        prop_oneof![6 => 5u32..200, 2 => 200u32..3000, 1 => 3000u32..12_000],
+    )
+        .prop_map(|(dur_ms, lead_client, lead_every, other_every_ms, ch, mode, size)| Phase { dur_ms, lead_client, lead_every, other_every_ms, ch, mode, size });
+    (any::<u64>(), side(), side(), (prop_oneof![Just(0u32), 0u32..100_000], prop_oneof![Just(0u32), 0u32..100_000]), prop_oneof![Just(5_000u32), Just(16_000u32), Just(30_000u32)], proptest::collection::vec(phase, 1..tier.pick(4, 6)))
+        .prop_map(|(seed, server, client, (l0, l1), step_us, phases)| EpIdeal { seed, server, client, latency_us: [l0, l1], step_us, phases })
+        .boxed()
+}
+
+/// What the two endpoints' counters showed, step by step (used to tell recorded finding D28 from anything else).
+#[derive(Default)]
+struct Watch {
+    /// longest time an endpoint owed acknowledgements while its send credit was negative, us (0 client, 1 server)
+    ack_starved_us: [u64; 2],
+    starved_since: [Option<u64>; 2],
+    had_rto: [bool; 2],
+    /// the allowed rate was at the s/64 floor at the step the rate controller handled its first feedback or expiry
+    floor_at_first_feedback: [bool; 2],
+}
+
+impl Watch {
+    fn sample(&mut self, side: usize, now_us: u64, st: Option<uflow::verif::VerifStats>) {
+        let Some(st) = st else {
+            self.starved_since[side] = None;
+            return;
+        };
+        if st.ack_queue_len > 0 && st.flush_alloc < 0 {
+            let since = *self.starved_since[side].get_or_insert(now_us);
+            self.ack_starved_us[side] = self.ack_starved_us[side].max(now_us - since);
+        } else {
+            self.starved_since[side] = None;
+        }
+        if st.rto_ms.is_some() && !self.had_rto[side] {
+            self.had_rto[side] = true;
+            if st.send_rate <= 23.0 {
+                self.floor_at_first_feedback[side] = true;
+            }
+        }
+    }
+}
+
+/// The connection broke (or stopped moving) on an ideal network: recorded finding D28 if an endpoint sat on owed
+/// acknowledgements for a second or more because its send credit was negative, anything else is reported as it is.
+fn broken(watch: &Watch, suffix: &str, what: String, mut classes: Vec<&'static str>) -> CaseResult {
+    let starved = watch.ack_starved_us[0].max(watch.ack_starved_us[1]);
+    let floor_first = watch.floor_at_first_feedback[0] || watch.floor_at_first_feedback[1];
+    let known = "oracle:c05:endpoints:connection_lost:acks_starved_of_send_credit";
+    let detail = format!("{what}; longest time an endpoint owed acknowledgements with negative send credit: client {} us, server {} us; allowed rate at the floor right after the first feedback: {floor_first}", watch.ack_starved_us[0], watch.ack_starved_us[1]);
+    if starved >= 1_000_000 && !floor_first {
+        if tolerate_known(known) {
+            classes.push("known_d28_acks_starved_of_send_credit");
+            return CaseResult::ok(true, classes);
+        }
+        return CaseResult::fail(known, detail);
+    }
+    CaseResult::fail(format!("oracle:c05:endpoints:connection_lost{suffix}"), detail)
+}
+
+fn run_endpoints(c: &EpIdeal) -> CaseResult {
+    use crate::sim::world::*;
+    let mut classes: Vec<&'static str> = vec!["endpoints"];
+    let scfg = ServerCfg { ep: EpCfg { keepalive: c.server.0, keepalive_interval_ms: c.server.1.max(1), active_timeout_ms: c.server.2.max(1000), ..EpCfg::default() }, ..ServerCfg::default() };
+    let ccfg = EpCfg { keepalive: c.client.0, keepalive_interval_ms: c.client.1.max(1), active_timeout_ms: c.client.2.max(1000), ..EpCfg::default() };
+    let mut w = World::new(c.seed, &scfg);
+    let ci = w.add_client(&ccfg, LinkState { latency_us: c.latency_us, ..LinkState::default() });
+    let caddr = w.clients[ci].addr;
+    let step = c.step_us.clamp(1_000, 50_000) as u64;
+    let mut watch = Watch::default();
+    macro_rules! step_both {
+        () => {
+            w.advance(step);
+            w.step_server();
+            w.step_client(ci);
+            watch.sample(0, w.now_us, w.clients[ci].client.as_ref().and_then(|cl| cl.verif_stats()));
+            watch.sample(1, w.now_us, w.server.as_ref().and_then(|s| s.client(&caddr)).and_then(|rc| rc.borrow().verif_stats()));
+        };
+    }
+    for _ in 0..60 {
+        step_both!();
+    }
+    if !(w.clients[ci].events.iter().any(|e| matches!(e.2, CEv::Connect)) && w.server_client_active(&caddr)) {
+        return CaseResult::fail("oracle:c05:endpoints:not_connected", format!("ideal network: client and server did not connect within {} us", 60 * step));
+    }
+    // the longest silence either application may keep: a third of the shorter active timeout
+    let limit_ms = (scfg.ep.active_timeout_ms.min(ccfg.active_timeout_ms) / 3) as u64;
+    // submissions per direction (0 = client -> server): (idx, mode, ch, size)
+    let mut sent: [Vec<(u32, u8, u8, usize)>; 2] = [Vec::new(), Vec::new()];
+    let mut longest_one_way_ms = 0u64;
+    for ph in c.phases.iter() {
+        let lead_ms = ((limit_ms * ph.lead_every.max(1) as u64) / 255).max(1);
+        let lead = if ph.lead_client { 0 } else { 1 };
+        let mut next = [0u64; 2];
+        let t_end = w.now_us + ph.dur_ms as u64 * 1000;
+        if ph.other_every_ms.is_none() {
+            longest_one_way_ms = longest_one_way_ms.max(ph.dur_ms as u64);
+        }
+        while w.now_us < t_end {
+            for d in 0..2 {
+                let every_ms = if d == lead { Some(lead_ms) } else { ph.other_every_ms.map(|v| v as u64) };
+                let Some(every_ms) = every_ms else { continue };
+                if w.now_us >= next[d] {
+                    next[d] = w.now_us + every_ms * 1000;
+                    let idx = sent[d].len() as u32;
+                    let data = world_payload(c.seed, d as u8, idx, ph.size as usize);
+                    let size = data.len();
+                    let ok = if d == 0 {
+                        w.client_send(ci, data, ph.ch, ph.mode);
+                        true
+                    } else {
+                        w.server_send(ci, data, ph.ch, ph.mode)
+                    };
+                    if !ok {
+                        if std::env::var("VERIF_DEBUG").is_ok() {
+                            for r in w.wire.iter() {
+                                eprintln!("t={} {}->{} type={} len={} fate={:?}", r.t_us, r.from.port(), r.to.port(), r.bytes[0], r.bytes.len(), r.fate);
+                            }
+                        }
+                        return broken(&watch, "", format!("ideal network, an application submitting at least every {lead_ms} ms (active timeouts {} / {} ms): at t={} us the server no longer has the client (server events: {:?})", scfg.ep.active_timeout_ms, ccfg.active_timeout_ms, w.now_us, w.server_events.iter().filter(|e| !matches!(e.2, SEv::Receive(..))).collect::<Vec<_>>()), classes);
+                    }
+                    sent[d].push((idx, ph.mode % 4, ph.ch % 64, size));
+                }
+            }
+            step_both!();
+            if std::env::var("VERIF_DEBUG").is_ok() && (w.now_us / step) % 20 == 0 {
+                eprintln!("S t={} client {:?} server {:?}", w.now_us, w.clients[ci].client.as_ref().and_then(|cl| cl.verif_stats()), w.server.as_ref().and_then(|s| s.client(&caddr)).and_then(|rc| rc.borrow().verif_stats()));
+            }
+        }
+    }
+    // drain: both keep stepping until neither side has anything queued or in flight (ends at once then: with both
+    // keepalives off a silent connection may time out legitimately)
+    let drained = |w: &World| -> bool {
+        let cs = w.clients[ci].client.as_ref().and_then(|cl| cl.verif_stats());
+        let ss = w.server.as_ref().and_then(|s| s.client(&caddr)).and_then(|rc| rc.borrow().verif_stats());
+        let idle = |st: &Option<uflow::verif::VerifStats>| st.as_ref().map_or(true, |st| st.send_queue_len == 0 && st.pending_queue_len == 0 && st.resend_queue_len == 0);
+        idle(&cs) && idle(&ss) && w.in_flight_count() == 0
+    };
+    let drain_start = w.now_us;
+    let mut last_count = (0usize, 0usize);
+    let mut last_progress = w.now_us;
+    let mut stalled = false;
+    loop {
+        if drained(&w) {
+            break;
+        }
+        step_both!();
+        let count = (w.server_events.len(), w.clients[ci].events.len());
+        if count != last_count {
+            last_count = count;
+            last_progress = w.now_us;
+        } else if w.now_us - last_progress > 120_000_000 {
+            stalled = true;
+            break;
+        }
+        if w.now_us - drain_start > 1_800_000_000 {
+            classes.push("endpoints_drain_cap");
+            return CaseResult::ok(false, classes);
+        }
+    }
+    if std::env::var("VERIF_DEBUG").is_ok() {
+        for r in w.wire.iter() {
+            eprintln!("t={} {}->{} type={} len={} fate={:?} {}", r.t_us, r.from.port(), r.to.port(), r.bytes[0], r.bytes.len(), r.fate, if r.bytes.len() < 100 { format!("{:?}", crate::sim::world::frame_of(&r.bytes)) } else { String::new() });
+        }
+    }
+    // the connection stayed up
+    if let Some(e) = w.clients[ci].events.iter().find(|e| matches!(e.2, CEv::Error(_) | CEv::Disconnect)) {
+        return broken(&watch, ":client", format!("ideal network, an application submitting at least every {limit_ms} ms (active timeouts {} / {} ms): the client reported {:?} at t={} us", scfg.ep.active_timeout_ms, ccfg.active_timeout_ms, e.2, e.1), classes);
+    }
+    if let Some(e) = w.server_events.iter().find(|e| matches!(e.2, SEv::Error(..) | SEv::Disconnect(_))) {
+        return broken(&watch, ":server", format!("ideal network, an application submitting at least every {limit_ms} ms (active timeouts {} / {} ms): the server reported {:?} at t={} us", scfg.ep.active_timeout_ms, ccfg.active_timeout_ms, e.2, e.1), classes);
+    }
+    if stalled {
+        return broken(&watch, ":stalled", format!("ideal network: packets still queued, yet no event at either application for 120 s (now t={} us)", w.now_us), classes);
+    }
+    // every packet, exactly once, in submission order (TimeSensitive ones may be missing)
+    for d in 0..2 {
+        let got: Vec<(u32, usize)> = if d == 0 {
+            w.server_events.iter().filter_map(|e| if let SEv::Receive(a, data) = &e.2 { if *a == caddr { Some(data) } else { None } } else { None }).map(|data| (parse_world_payload(data).filter(|p| p.0 == d as u8).map_or(u32::MAX, |p| p.1), data.len())).collect()
+        } else {
+            w.clients[ci].events.iter().filter_map(|e| if let CEv::Receive(data) = &e.2 { Some(data) } else { None }).map(|data| (parse_world_payload(data).filter(|p| p.0 == d as u8).map_or(u32::MAX, |p| p.1), data.len())).collect()
+        };
+        let name = if d == 0 { "client->server" } else { "server->client" };
+        let mut gi = 0usize;
+        for (idx, mode, ch, size) in sent[d].iter() {
+            if gi < got.len() && got[gi].0 == *idx {
+                if got[gi].1 != *size {
+                    return CaseResult::fail("oracle:c05:endpoints:altered", format!("{name}: packet #{idx} submitted with {size} bytes arrived with {} bytes", got[gi].1));
+                }
+                gi += 1;
+            } else if *mode != 0 {
+                return CaseResult::fail(
+                    format!("oracle:c05:endpoints:not_delivered_in_order:mode{mode}"),
+                    format!("{name}: ideal network, packet #{idx} (channel {ch}, mode {mode}, {size} bytes) is not the next one delivered (next delivered: {:?}; {} of {} submitted were delivered in all)", got.get(gi), got.len(), sent[d].len()),
+                );
+            }
+        }
+        if gi < got.len() {
+            return CaseResult::fail("oracle:c05:endpoints:unexpected_delivery", format!("{name}: delivery {:?} is not a submitted packet in its place (duplicate, out of order or unknown)", got[gi]));
+        }
+    }
+    let total_ms: u64 = c.phases.iter().map(|p| p.dur_ms as u64).sum();
+    if longest_one_way_ms > scfg.ep.active_timeout_ms.min(ccfg.active_timeout_ms) as u64 {
+        classes.push("endpoints_one_way_longer_than_timeout");
+    }
+    if !c.server.0 || !c.client.0 {
+        classes.push("endpoints_keepalive_off_somewhere");
+    }
+    CaseResult::ok(total_ms > 3000 && sent[0].len() + sent[1].len() >= 5, classes)
+}
+
 impl Check for C05 {
-    type Case = PairScenario;
+    type Case = Case;
 
     fn id(&self) -> &'static str {
         "C05"
     }
 
-    fn strategy(&self, tier: Tier) -> BoxedStrategy<PairScenario> {
+    fn strategy(&self, tier: Tier) -> BoxedStrategy<Case> {
         let p = GenParams {
             max_ticks: tier.pick(120, 400),
             max_sends: tier.pick(8, 16),
@@ -28,7 +281,7 @@ impl Check for C05 {
             max_latency_us: 1_000_000,
             ..GenParams::default()
         };
-        prop_oneof![5 => scenario_strategy(&p), 1 => bulk_scenario_strategy(tier.pick(150, 300), tier.pick(40, 120), false, true)].boxed()
+        prop_oneof![10 => scenario_strategy(&p).prop_map(Case::Pair), 2 => bulk_scenario_strategy(tier.pick(150, 300), tier.pick(40, 120), false, true).prop_map(Case::Pair), 1 => ep_ideal_strategy(tier).prop_map(|endpoints| Case::Endpoints { endpoints })].boxed()
     }
 
     fn cases(&self, tier: Tier) -> u64 {
@@ -44,14 +297,18 @@ impl Check for C05 {
     }
 
     fn rule(&self) -> String {
-        "case = SimPair scenario with FIFO loss-free links (constant latency 0..1 s per direction), traffic in both directions, all four modes, bursts exceeding the flush budget, the packet / frame windows (2^k) and the receive allocation, arbitrary cadence, base ids anywhere, plus a bulk shape (4096 windows, streams of hundreds of tiny packets per tick with rare Reliable ones); followed by a fair phase to quiescence. Oracle: the delivered sequence at each end equals the opposite end's submission sequence with some TimeSensitive packets removed (same global order across channels, nothing else missing, nothing twice). Non-trivial = some tick submitted more than one packet or a multi-fragment packet, and at least 5 packets were delivered. Distinct = distinct serialised scenario.".into()
+        "case = SimPair scenario with FIFO loss-free links (constant latency 0..1 s per direction), traffic in both directions, all four modes, bursts exceeding the flush budget, the packet / frame windows (2^k) and the receive allocation, arbitrary cadence, base ids anywhere, plus a bulk shape (4096 windows, streams of hundreds of tiny packets per tick with rare Reliable ones); followed by a fair phase to quiescence; about 1 case in 13 instead runs a real Server and a real Client (World) on a loss-free FIFO network: 1-5 phases of 0.5-70 s in which one application submits a packet (any mode, 5-12000 bytes) at least every third of the shorter active timeout and the other one is silent or submits at its own interval, keepalive on or off per side, active timeouts 10 / 20 / 60 s, then stepping until nothing is queued or in flight - there the connection must stay up (no Error, no Disconnect) and the same delivery oracle applies. Oracle: the delivered sequence at each end equals the opposite end's submission sequence with some TimeSensitive packets removed (same global order across channels, nothing else missing, nothing twice). Non-trivial = some tick submitted more than one packet or a multi-fragment packet, and at least 5 packets were delivered. Distinct = distinct serialised scenario.".into()
     }
 
     fn assumptions(&self) -> Vec<String> {
-        vec!["quiescence is awaited with the progress-based bound of C02 (stall window 15 virtual minutes, cap 6 h)".into(), "payload identity convention of C01".into()]
+        vec!["quiescence is awaited with the progress-based bound of C02 (stall window 15 virtual minutes, cap 6 h)".into(), "payload identity convention of C01".into(), "endpoint cases: known finding D28 is excluded by shape (a connection lost or stalled on the ideal network after an endpoint owed acknowledgements for >= 1 s while its send credit was negative, and not the fixed D27 signature) and counted as class known_d28_acks_starved_of_send_credit".into()]
     }
 
-    fn run(&self, sc: &PairScenario) -> CaseResult {
+    fn run(&self, case: &Case) -> CaseResult {
+        let sc = match case {
+            Case::Pair(sc) => sc,
+            Case::Endpoints { endpoints } => return run_endpoints(endpoints),
+        };
         let mut sc = sc.clone();
         sc.normalize();
         for l in sc.links.iter_mut() {
